@@ -132,8 +132,15 @@ IsPacketKind(c) == c.kind \notin {"item", "chunk"}
 
 -----------------------------------------------------------------------------
 (* writer protocol *)
+RoundTripProp(kind) ==
+    CASE kind \in {"sr", "rr"} -> "C02" [] kind = "sdes" -> "C03" [] kind \in {"bye", "app"} -> "C04"
+      [] kind \in {"tfb", "pfb"} -> "C05" [] OTHER -> "C19"
+
 \* calculate_size on the current configuration
 CalcSizeConf(cfg, res) ==
+    \* round trips start with "every configuration the builder accepts serialises": a representable configuration
+    \* is sized without panic
+    /\ P(RoundTripProp(cfg.kind)) => (~IsPanic(res) /\ (Accepts(cfg) => IsOk(res)))
     /\ (P("C06") \/ P("C01")) => ~IsPanic(res)
     /\ P("C06") => (IsOk(res) => res.n % 4 = 0)
     /\ (P("C16") \/ P("C20") \/ P("C14") \/ P("C19")) =>
@@ -152,6 +159,9 @@ HasFir(c) == IF c.kind = "compound" THEN \E i \in 1..Len(c.members) : HasFir(c.m
 \* write_into(buffer of length L prefilled with pattern fill) -> res, buffer afterwards = out
 \* prev = an earlier write on the same configuration (prev.same: by the same builder instance)
 WriteConf(cfg, a, prev, L, fill, res, out) ==
+    /\ P(RoundTripProp(cfg.kind)) =>
+          /\ ~IsPanic(res)
+          /\ (Accepts(cfg) /\ ~IsNone(a) /\ IsOk(a) /\ L >= a.n) => IsOk(res)       \* ... and serialises
     /\ P("C06") =>
           /\ ~IsPanic(res)
           /\ ~IsNone(a) =>
@@ -179,7 +189,8 @@ WriteConf(cfg, a, prev, L, fill, res, out) ==
 GetPaddingConf(cfg, res) ==
     (P("C14") \/ P("C20") \/ P("C19")) =>
         /\ IsOk(res)
-        /\ res.n = (IF PaddingOf(cfg) = 0 THEN -1 ELSE PaddingOf(cfg))
+        \* "no padding" may be reported as None (-1) or as Some(0): the writer trait allows both
+        /\ IF PaddingOf(cfg) = 0 THEN res.n \in {-1, 0} ELSE res.n = PaddingOf(cfg)
 
 -----------------------------------------------------------------------------
 (* Parsed views.  A view is the record of every accessor's value; slices    *)
@@ -274,6 +285,7 @@ FciLaw(f, region, r, roff, base) ==
 
 FbFieldsOk(kind, b, v, base) ==
     /\ P("C09") => (v.sender = U32At(b, 5) /\ v.media = U32At(b, 9))
+    /\ P("C18") => \A f \in FciTypes : IsErr(v.fci[f]) => Truthful(-1, b, AsErr(v.fci[f]))
     /\ P("C15") =>
           \A f \in FciTypes :
              /\ ~IsPanic(v.fci[f])
@@ -370,6 +382,7 @@ UnknownViewOk(b, v, base) ==
           \A t \in PacketKinds :
              /\ Has(v.conv, t) => TypedConf(t, b, v.conv[t], base)
              /\ Has(v.conv, t) /\ Has(v.conv, t \o "_val") => v.conv[t] = v.conv[t \o "_val"]
+             /\ Has(v.conv, t) /\ Has(v.conv, t \o "_pkt") => v.conv[t] = v.conv[t \o "_pkt"]     \* via Packet::from(unknown)
 
 ViewOk(kind, b, v, base) ==
     /\ kind \in PacketKinds => (P("C08") => HdrOk(b, v.hdr, TRUE))
@@ -386,6 +399,8 @@ ViewOk(kind, b, v, base) ==
 
 TypedConf(kind, b, res, base) ==
     /\ P("C01") => ~IsPanic(res)
+    \* C18, second sentence: a too-short input and a version-2 input of the right type with a wrong length ARE reported
+    /\ (P("C18") /\ MandatedErr(MinLen(kind), PTOf(kind), b) # {}) => IsErr(res)
     /\ IsOk(res) =>
           /\ (P("C08") \/ (kind = "sdes" /\ P("C10")) \/ (kind = "unknown" /\ P("C19"))) => CanAccept(kind, b)
           /\ CanAccept(kind, b) => ViewOk(kind, b, res.view, base)
@@ -436,6 +451,7 @@ PadView(p) == IF p = 0 THEN -1 ELSE p
 
 RtFci(fci, r, b, base) ==
     /\ IsOk(r)
+    /\ fci.f \in {"nack", "fir", "sli"} => AltOk(r.entries, r.entries_alt)
     /\ CASE fci.f = "nack" -> r.entries = SetToSortSeq(fci.set, <)
          [] fci.f = "fir"  -> SameBag(r.entries, fci.map)
          [] fci.f = "sli"  -> r.entries = fci.list
@@ -449,10 +465,13 @@ RoundTripOk(cfg, b, v, base) ==
             /\ v.hdr.padding = PadView(cfg.padding)
             /\ v.ssrc = cfg.ssrc /\ v.ntp = cfg.ntp /\ v.rtp = cfg.rtp /\ v.pkts = cfg.pkts /\ v.octets = cfg.octets
             /\ v.n_reports = Len(cfg.blocks) /\ v.blocks = cfg.blocks
+            /\ AltOk([i \in 1..Len(v.blocks) |-> v.blocks[i].ssrc], v.blocks_alt)
       [] cfg.kind = "rr" ->
             /\ v.hdr.padding = PadView(cfg.padding)
             /\ v.ssrc = cfg.ssrc /\ v.n_reports = Len(cfg.blocks) /\ v.blocks = cfg.blocks
+            /\ AltOk([i \in 1..Len(v.blocks) |-> v.blocks[i].ssrc], v.blocks_alt)
       [] cfg.kind = "sdes" ->
+            /\ SdesAltOk(v)
             /\ v.hdr.padding = PadView(cfg.padding)
             /\ Len(v.chunks) = Len(cfg.chunks)
             /\ \A i \in 1..Len(cfg.chunks) :
@@ -470,7 +489,7 @@ RoundTripOk(cfg, b, v, base) ==
                                   /\ ch.items[j].plen = Len(cc.items[j].prefix)
       [] cfg.kind = "bye" ->
             /\ v.hdr.padding = PadView(cfg.padding)
-            /\ v.ssrcs = cfg.sources
+            /\ v.ssrcs = cfg.sources /\ AltOk(v.ssrcs, v.ssrcs_alt)
             /\ IF cfg.reason = <<>> THEN v.reason.some = 0
                ELSE v.reason.some = 1 /\ SlInside(b, v.reason, base) /\ SlBytes(b, v.reason, base) = cfg.reason
       [] cfg.kind = "app" ->
@@ -485,9 +504,6 @@ RoundTripOk(cfg, b, v, base) ==
             /\ ~(cfg.fci.f \in {"fir", "sli"} /\ Size(cfg) = 12 + cfg.padding) => RtFci(cfg.fci, v.fci[cfg.fci.f], b, base)
       [] OTHER -> TRUE
 
-RoundTripProp(kind) ==
-    CASE kind \in {"sr", "rr"} -> "C02" [] kind = "sdes" -> "C03" [] kind \in {"bye", "app"} -> "C04"
-      [] kind \in {"tfb", "pfb"} -> "C05" [] OTHER -> "C19"
 
 -----------------------------------------------------------------------------
 (* C13: padding transparency, on a pair of observations (unpadded, padded)  *)
@@ -755,7 +771,7 @@ Conf(ev) ==
             LET tl == TilingFor(ev)
             IN  /\ CParseConf(ev.b, ev.res, tl)
                 \* the iterator driven in other ways (nth, skip, step_by, two at once) yields the same sequence
-                /\ ((P("C01") \/ P("C11") \/ P("C14")) /\ IsOk(ev.res)) =>
+                /\ ((P("C01") \/ P("C11") \/ P("C14") \/ P("C19")) /\ IsOk(ev.res)) =>
                       /\ ~Has(ev, "alt_panic")
                       /\ Has(ev, "alt") =>
                             /\ AltOk(ev.alt_seq, ev.alt)
